@@ -117,7 +117,8 @@ class StubStyle:
         self.key = 0
 
     def get_attrs_for_style_str(self, s, default=None):
-        return self.table[s]
+        # style strings that Char() derived itself (" class:control-character ") are plain
+        return self.table.get(s, mk_attrs(PLAIN))
 
     def invalidation_hash(self):
         return self.key
@@ -346,6 +347,13 @@ class VT:
                 elif q == "25":
                     self.visible = final == "h"
                 elif q == "1049":
+                    if final == "h" and not self.alt:
+                        self._saved = ([r[:] for r in self.grid], self.row, self.col, self.top)
+                        self.grid = [[self.blank for _ in range(self.w)] for _ in range(self.H)]
+                        self.top = 0
+                    elif final == "l" and self.alt:
+                        g, self.row, self.col, self.top = self._saved
+                        self.grid = [r[:] for r in g]
                     self.alt = final == "h"
                 elif q in ("12", "2004", "1", "1000", "1003", "1015", "1006"):
                     pass
@@ -583,18 +591,14 @@ class StubRenderLayout(StubLayout):
 
 
 def last_tok(table_rev, last):
-    return "N" if last is None else str(table_rev[last])
+    return "N" if last is None else str(table_rev.get(last, "?"))
 
 
 def gridable(case):
     """the Lean terminal stores abstract Attrs, the interpreter parsed SGR: comparable when the escape codes of
-    the case's attrs are pairwise distinct at the case's depth, the size never changes, and no alternate
-    screen / clear is involved (the interpreter is absolute, the model relative to the origin)"""
-    if case.get("nogrid"):
+    the case's attrs are pairwise distinct at the case's depth"""
+    if case.get("nogrid") or not case.get("chain", True):
         return False
-    for op in case["ops"]:
-        if op["op"] in ("size",):
-            return False
     tab = style_table(case)
     out = Vt100_Output(io.StringIO(), lambda: Size(1, 1), term="xterm")
     cache = out._escape_code_caches[DEPTHS[case["depth"]]]
@@ -605,6 +609,22 @@ def gridable(case):
             return False
         seen[e] = a
     return True
+
+
+def grid_plan(case):
+    """per op: compare the Lean terminal with the byte-level interpreter after this op?  Not after a size
+    change or a bare reset (no terminal semantics), and not once the alternate screen has been left (the
+    interpreter switches buffers, the model terminal is the alternate screen only)."""
+    on = gridable(case)
+    plan = []
+    for op in case["ops"]:
+        k = op["op"]
+        if k in ("size", "reset"):
+            on = False
+        if case["fs"] and (k == "clear" or (k == "erase" and op.get("la", 1)) or op.get("done")):
+            on = False
+        plan.append(on and k in ("render", "diff", "erase", "clear"))
+    return plan
 
 
 def sgr_of_attrs(case):
@@ -713,13 +733,14 @@ def model_lines(case):
     L = header_lines(case)
     extra: dict[str, int] = {}
     body = []
-    grid = gridable(case)
-    if case["kind"] == "diff":
-        pos_known = True
-        for op in case["ops"]:
-            if op["op"] == "size":
-                body.append(f"size {op['W']} {op['H']}")
-                continue
+    plan = grid_plan(case)
+    if case["kind"] != "diff":
+        body.append("init")
+    for op, grid in zip(case["ops"], plan):
+        k = op["op"]
+        if k == "size":
+            body.append(f"size {op['W']} {op['H']}")
+        elif k == "diff":
             body += screen_lines(op["scr"], extra)
             if op.get("noprev"):
                 body.append("noprev")
@@ -729,34 +750,21 @@ def model_lines(case):
                 "-" if "last" not in op else ("N" if op["last"] is None else str(op["last"])),
                 enc_bool(op["done"]), "-" if "pw" not in op else str(op["pw"])]))
             body.append("keep")
-            if grid and case.get("chain", True):
-                body.append("grid")
-                if op["done"]:
-                    body.append("rebase")
-    else:
-        body.append("init")
-        for op in case["ops"]:
-            k = op["op"]
-            if k == "size":
-                body.append(f"size {op['W']} {op['H']}")
-            elif k == "render":
-                body += screen_lines(op["scr"], extra)
-                body.append(f"render {enc_bool(op['done'])} {enc_bool(op.get('mouse', 0))} {op.get('key', 0)} "
-                            f"{op.get('shape', 0)}")
-                if grid:
-                    body.append("grid")
-                    if op["done"]:
-                        body.append("rebase")
-            elif k == "erase":
-                body.append(f"erase {enc_bool(op.get('la', 1))}")
-                if grid:
-                    body.append("grid")
-            elif k == "reset":
-                body.append(f"reset {enc_bool(op.get('sc', 0))} {enc_bool(op.get('la', 1))}")
-            elif k == "clear":
-                body.append("clear")
-    # styles that Char() derived (control characters): same attrs as the base style of the cell is NOT
-    # implied; the harness gives them the attrs the stub style table would (plain)
+        elif k == "render":
+            body += screen_lines(op["scr"], extra)
+            body.append(f"render {enc_bool(op['done'])} {enc_bool(op.get('mouse', 0))} {op.get('key', 0)} "
+                        f"{op.get('shape', 0)}")
+        elif k == "erase":
+            body.append(f"erase {enc_bool(op.get('la', 1))}")
+        elif k == "reset":
+            body.append(f"reset {enc_bool(op.get('sc', 0))} {enc_bool(op.get('la', 1))}")
+        elif k == "clear":
+            body.append("clear")
+        if grid:
+            body.append("grid")
+        if op.get("done") and k in ("render", "diff"):
+            body.append("rebase")
+    # styles that Char() derived itself (control characters): plain in the stub style
     for st, sid in extra.items():
         L.append(f"style {sid} {enc_attrs(mk_attrs(PLAIN))}".replace("/", " "))
     return L + body
@@ -764,43 +772,517 @@ def model_lines(case):
 
 def impl_lines(case):
     extra: dict[str, int] = {}
-    # the same bookkeeping as model_lines for the replies to the loading lines
     out = ["ok"] * len(header_lines(case))
-    grid = gridable(case)
-    res = run_case(case, tee=grid)
-    vt = VT(case["W"], case["H"], 0) if grid else None
-    sgrmap = sgr_of_attrs(case) if grid else None
+    plan = grid_plan(case)
+    tee = any(plan)
+    res = run_case(case, tee=tee)
+    vt = VT(case["W"], case["H"], 0) if tee else None
+    sgrmap = sgr_of_attrs(case) if tee else None
     body = []
-    for op, calls, st, data in res:
+    if case["kind"] != "diff":
+        op, calls, st, data = res.pop(0)
+        if vt:
+            vt.feed(data)
+        body.append(f"{enc_calls(calls)} | {st}")
+    for (op, calls, st, data), grid in zip(res, plan):
         k = op["op"]
         if k == "size":
             body.append("ok")
             continue
-        if k == "init":
-            if vt:
-                vt.feed(data)
-            body.append(f"{enc_calls(calls)} | {st}")
-            continue
         if "scr" in op:
             body += ["ok"] * len(screen_lines(op["scr"], extra))
-        if case["kind"] == "diff" and op.get("noprev"):
+        if k == "diff" and op.get("noprev"):
             body.append("ok")
         body.append(f"{enc_calls(calls)} | {st}")
+        if k == "diff":
+            body.append("ok")  # keep
         if vt:
             vt.feed(data)
-        if case["kind"] == "diff":
-            body.append("ok")  # keep
-            if grid and case.get("chain", True):
-                body.append(grid_line(vt, sgrmap))
-                if op["done"]:
-                    vt.rebase()
-                    body.append("ok")
-        elif grid and k in ("render", "erase"):
+            if k == "clear":
+                vt.top = 0
+        if grid:
             body.append(grid_line(vt, sgrmap))
-            if k == "render" and op["done"]:
+        if op.get("done") and k in ("render", "diff"):
+            if vt:
                 vt.rebase()
-                body.append("ok")
+            body.append("ok")
     return out + ["ok"] * len(extra) + body
+
+
+# ------------------------------------------------------------------ oracle
+def _viol(site, cond, msg):
+    return {"signature": f"{site} | {cond}", "msg": msg}
+
+
+def expected_cells(js, case, W, H):
+    """what the owned rows must show for screen `js`: {(y, x): (text, sgr)} for the cells laid out from the
+    left, a wide / multi-character cell covering the following columns; everything else blank"""
+    out = Vt100_Output(io.StringIO(), lambda: Size(1, 1), term="xterm")
+    cache = out._escape_code_caches[DEPTHS[case["depth"]]]
+    tab = style_table(case)
+    plain = mk_attrs(PLAIN)
+
+    def sgr(style):
+        a = None
+        for k, v in tab.items():
+            if style_str(k) == style:
+                a = v
+        v = VT(1, 1)
+        v.feed(cache[a if a is not None else plain])
+        return v.sgr
+
+    rows: dict[int, dict[int, Char]] = {}
+    for y, x, t, sid in js["cells"]:
+        rows.setdefault(y, {})[x] = Char(t, style_str(sid))
+    exp = {}
+    for y in range(min(js["h"], H)):
+        r = rows.get(y, {})
+        c = 0
+        while c < W:
+            ch = r.get(c)
+            if ch is None:
+                c += 1
+                continue
+            a = sgr(ch.style)
+            col = c
+            for u in ch.char:
+                k = get_cwidth(u)
+                if k == 0:
+                    if (y, col - 1) in exp and col > c:
+                        t0, a0 = exp[(y, col - 1)]
+                        exp[(y, col - 1)] = (t0 + u, a0)
+                    continue
+                if col + k <= W:
+                    exp[(y, col)] = (u, a)
+                    for i in range(1, k):
+                        exp[(y, col + i)] = ("", a)
+                col += k
+            c += ch.width or 1
+    return exp
+
+
+def compare_grid(vt: VT, exp, W, H, shift=0):
+    """first owned cell that is not visibly what `exp` says (rows shifted up by `shift` after a scroll)"""
+    g = vt.owned()
+    for y in range(H - shift):
+        for x in range(W):
+            want = vis(exp.get((y + shift, x), (" ", VT.PLAIN)))
+            got = vis(g[y][x]) if y < len(g) else None
+            if want != got:
+                return (y, x, want, got)
+    return None
+
+
+class _Real:
+    """runs the ops of a chain case on the real code with a real Vt100_Output; yields per op the bytes"""
+
+    def __init__(self, case):
+        self.case = case
+        self.W, self.H, self.fs = case["W"], case["H"], bool(case["fs"])
+        self.buf = io.StringIO()
+        self.out = Vt100_Output(self.buf, lambda: Size(rows=self.H, columns=self.W), term="xterm",
+                                enable_cpr=False)
+        self.table = style_table(case)
+        self.app = StubApp(case["depth"])
+
+    def take(self):
+        self.out.flush()
+        s = self.buf.getvalue()
+        self.buf.seek(0)
+        self.buf.truncate()
+        return s
+
+    def steps(self):
+        case = self.case
+        style = StubStyle(self.table)
+        if case["kind"] == "diff":
+            afs = _StyleStringToAttrsCache(style.get_attrs_for_style_str, DummyStyleTransformation())
+            hs = _StyleStringHasStyleCache(afs)
+            prev, pos, last = None, Point(0, 0), None
+            for op in case["ops"]:
+                scr = build_screen(op["scr"])
+                if op.get("noprev"):
+                    prev = None
+                if "pos" in op:
+                    pos = Point(x=op["pos"][0], y=op["pos"][1])
+                last_h = prev.height if prev is not None else 0
+                pos, last = _output_screen_diff(self.app, self.out, scr, pos, self.app.color_depth, prev, last,
+                                                bool(op["done"]), self.fs, afs, hs, self.out.get_size(), self.W)
+                self.out.flush()
+                yield dict(op, op="render"), self.take(), last_h
+                prev = scr
+        else:
+            layout = StubRenderLayout()
+            self.app.layout = layout
+            flag = {"mouse": False}
+            r = Renderer(style, self.out, full_screen=self.fs, mouse_support=Condition(lambda: flag["mouse"]))
+            yield {"op": "init"}, self.take(), 0
+            for op in case["ops"]:
+                k = op["op"]
+                last_h = r._last_screen.height if r._last_screen is not None else 0
+                if k == "render":
+                    layout.container.js = op["scr"]
+                    flag["mouse"] = bool(op.get("mouse", 0))
+                    style.key = op.get("key", 0)
+                    self.app.cursor.shape = op.get("shape", 0)
+                    r.render(self.app, layout, is_done=bool(op["done"]))
+                elif k == "erase":
+                    r.erase(leave_alternate_screen=bool(op.get("la", 1)))
+                elif k == "clear":
+                    r.clear()
+                else:
+                    return      # size change / bare reset: the chain property is not defined beyond
+                yield op, self.take(), last_h
+
+
+def scratch_vt(case, js, done, top):
+    """clear + draw `js` from scratch with the real differ on a fresh terminal"""
+    W, H, fs = case["W"], case["H"], bool(case["fs"])
+    buf = io.StringIO()
+    out = Vt100_Output(buf, lambda: Size(rows=H, columns=W), term="xterm", enable_cpr=False)
+    style = StubStyle(style_table(case))
+    afs = _StyleStringToAttrsCache(style.get_attrs_for_style_str, DummyStyleTransformation())
+    hs = _StyleStringHasStyleCache(afs)
+    app = StubApp(case["depth"])
+    _output_screen_diff(app, out, build_screen(js), Point(0, 0), app.color_depth, None, None, done, fs, afs, hs,
+                        Size(rows=H, columns=W), 0)
+    out.flush()
+    vt = VT(W, H, top)
+    vt.feed(buf.getvalue())
+    return vt
+
+
+def oracle(case):
+    if not case.get("chain", True):
+        return []
+    W, H, fs = case["W"], case["H"], bool(case["fs"])
+    top = 0 if fs else case.get("top", 2)
+    vt = VT(W, H, top)
+    v = []
+    site = "_output_screen_diff"
+
+    def bad(cond, msg):
+        if not any(x["signature"].endswith("| " + cond) for x in v):
+            v.append(_viol(site, cond, msg))
+
+    real = _Real(case)
+    for i, (op, data, last_h) in enumerate(real.steps()):
+        k = op["op"]
+        scrolled0 = vt.scrolled
+        vt.writes = []
+        rest = ""
+        if k == "render" and op.get("done") and "\x1b[?1049l" in data:
+            cut = data.index("\x1b[?1049l")      # Renderer.reset() after the done render leaves the alt screen
+            data, rest = data[:cut], data[cut:]
+        vt.feed(data)
+        where = f"op#{i} {k} W={W} H={H} fs={int(fs)}"
+        if k == "clear":
+            vt.top = 0
+        if vt.unknown:
+            bad("unknown escape sequence", f"{where}: {vt.unknown[:3]}")
+            vt.unknown = []
+        if vt.oob:
+            bad("cursor moved past the top/left margin of the owned area", where)
+            vt.oob = False
+        if any(c != vt.sentinel for y in range(vt.top) for c in vt.grid[y]):
+            bad("rows above the origin changed", where)
+        if k == "init":
+            continue
+        if k in ("erase", "clear"):
+            g = vt.owned()
+            if any(vis(c) != (" ", VT.PLAIN) for row in g for c in row):
+                bad(f"{k}: output not erased", where)
+            if (vt.row, vt.col) != (vt.top, 0):
+                bad(f"{k}: cursor not at the origin", f"{where}: cursor {(vt.row - vt.top, vt.col)}")
+            if vt.sgr != VT.PLAIN or not vt.autowrap:
+                bad(f"{k}: attributes / autowrap not restored", where)
+            if vt.scrolled != scrolled0:
+                bad("scrolled", where)
+            continue
+        js, done = op["scr"], bool(op["done"])
+        new_h = min(js["h"], H)
+        bound = min(max(last_h, js["h"]), H)
+        shift = vt.scrolled - scrolled0
+        if done:
+            if shift != (1 if new_h == H else 0):
+                bad("scrolled", f"{where}: done render scrolled {shift} lines, output height {new_h}")
+        elif shift:
+            bad("scrolled", f"{where}: scrolled {shift} lines")
+        outside = [(y - vt.top + shift, x) for (y, x) in vt.writes
+                   if not (vt.top <= y + shift < vt.top + bound and x < W)]
+        if outside and not shift:
+            bad("wrote outside the owned rows", f"{where}: cells {outside[:4]} bound rows<{bound}")
+        exp = expected_cells(js, case, W, H)
+        d = compare_grid(vt, exp, W, H, shift)
+        if d:
+            bad("terminal does not show the screen",
+                f"{where}: cell (y={d[0]},x={d[1]}) want {d[2]} got {d[3]}; screen={js}")
+        sv = scratch_vt(case, js, done, top if not fs else 0)
+        # compare with the from-scratch draw (same origin-relative coordinates)
+        ga, gb = vt.owned(), sv.owned()
+        diffc = None
+        for y in range(min(len(ga), len(gb))):
+            for x in range(W):
+                if vis(ga[y][x]) != vis(gb[y][x]):
+                    diffc = diffc or (y, x, ga[y][x], gb[y][x])
+        if diffc:
+            bad("incremental != from-scratch (cells)",
+                f"{where}: cell (y={diffc[0]},x={diffc[1]}) incremental {diffc[2]} scratch {diffc[3]}; screen={js}")
+        if (vt.row - vt.top, vt.col) != (sv.row - sv.top, sv.col):
+            bad("incremental != from-scratch (cursor)",
+                f"{where}: cursor {(vt.row - vt.top, vt.col)} vs scratch {(sv.row - sv.top, sv.col)}")
+        if vt.visible != sv.visible:
+            bad("incremental != from-scratch (cursor visibility)", where)
+        if vt.sgr != VT.PLAIN:
+            bad("attributes not reset after render", where)
+        if vt.autowrap != (done or not fs):
+            bad("autowrap state", f"{where}: autowrap={vt.autowrap}")
+        if vt.visible != bool(js["show"]):
+            bad("cursor visibility", f"{where}: visible={vt.visible} show_cursor={js['show']}")
+        if done:
+            if (vt.row - vt.top, vt.col) != (new_h - shift, 0):
+                bad("done: cursor not on the line below the output",
+                    f"{where}: cursor {(vt.row - vt.top, vt.col)} output height {new_h}")
+            vt.feed(rest)
+            vt.rebase()
+        else:
+            cx, cy = js.get("cur") or [0, 0]
+            if (vt.row - vt.top, vt.col) != (cy, min(cx, W - 1)):
+                bad("cursor position", f"{where}: cursor {(vt.row - vt.top, vt.col)} want {(cy, min(cx, W - 1))}")
+    return v
+
+
+# ------------------------------------------------------------------ generators
+STYLES = [[2, "", "ansired", "0000000"], [3, "ansiblue", "", "1000000"], [4, "ansiblue", "", "1000000"],
+          [5, "", "", "1000000"], [6, "", "", "0100000"], [7, "ff8800", "004400", "0000010"],
+          [8, "ff8800", "", "0000000"], [9, "", "", "0001001"]]
+GLYPHS = ["a", "b", "x", "y", "_"]
+
+
+def rand_screen(rng, W, H, rich=True):
+    h = rng.choice([0, 1, 1, 2, H, H, max(H - 1, 0), rng.randrange(0, H + 1)] + ([H + 1] if rich else []))
+    cells, zwe = [], []
+    for y in range(h):
+        if rng.random() < 0.25:
+            continue
+        L = rng.choice([0, 1, W, W, max(W - 1, 0), rng.randrange(0, W + 1)] + ([W + 2] if rich else []))
+        x = 0
+        while x < L:
+            k = rng.random()
+            sid = rng.choice([0, 0, 1, 2, 3, 4, 5, 6, 7, 8, 9])
+            if k < 0.12:
+                x += 1                      # gap: the default char
+                continue
+            if k < 0.45:
+                cells.append([y, x, rng.choice(GLYPHS), sid])
+            elif k < 0.70:
+                cells.append([y, x, " ", sid])
+            elif rich and k < 0.80 and (x + 1 < W or x >= W):
+                cells.append([y, x, rng.choice(["世", "界", "\x01", "\x1b"]), sid])
+                cells.append([y, x + 1, "", sid])
+                x += 1
+            elif rich and k < 0.84:
+                cells.append([y, x, "é", sid])
+            elif rich and k < 0.87:
+                cells.append([y, x, "\xa0", sid])
+            else:
+                cells.append([y, x, rng.choice(GLYPHS), 0])
+            if rich and rng.random() < 0.03:
+                zwe.append([y, x, "\x1b]8;;u\x1b\\"])
+            x += 1
+    hh = max(1, min(h, H))
+    cur = [rng.choice([0, max(W - 1, 0), rng.randrange(0, W)]), rng.randrange(0, hh)]
+    if rich and rng.random() < 0.05:
+        cur[0] = W + rng.randrange(0, 2)
+    return {"h": h, "cur": cur, "show": rng.randrange(2), "cells": cells, "zwe": zwe}
+
+
+def mutate_screen(rng, js, W, H):
+    """a small edit of the previous screen (what typing does): the interesting case for a differ"""
+    js = {"h": js["h"], "cur": list(js["cur"]), "show": js["show"], "cells": [list(c) for c in js["cells"]],
+          "zwe": [list(z) for z in js.get("zwe", [])]}
+    # never split a wide pair: only edit narrow single cells
+    narrow = [i for i, c in enumerate(js["cells"]) if len(c[2]) == 1 and get_cwidth(Char(c[2], "").char) == 1
+              and not (i + 1 < len(js["cells"]) and js["cells"][i + 1][2] == "")]
+    for _ in range(rng.randrange(1, 4)):
+        k = rng.random()
+        if k < 0.4 and narrow:
+            i = rng.choice(narrow)
+            js["cells"][i][2] = rng.choice(GLYPHS + [" "])
+        elif k < 0.6 and narrow:
+            i = rng.choice(narrow)
+            js["cells"][i][3] = rng.choice([0, 1, 2, 3, 4, 5, 6])
+        elif k < 0.8 and narrow:
+            i = rng.choice(narrow)
+            js["cells"].pop(i)
+            narrow = [j if j < i else j - 1 for j in narrow if j != i]
+        else:
+            hh = max(1, min(js["h"], H))
+            js["cur"] = [rng.randrange(0, max(W, 1)), rng.randrange(0, hh)]
+    return js
+
+
+def rand_chain(rng, tier):
+    W = rng.choice([1, 2, 3, 4, 5, 8, 12])
+    H = rng.choice([1, 2, 3, 4, 6])
+    fs = rng.randrange(2)
+    depth = rng.choice([1, 4, 8, 24, 24])
+    kind = rng.choice(["rend", "rend", "rend", "diff"])
+    case = {"kind": kind, "W": W, "H": H, "fs": fs, "depth": depth, "styles": STYLES, "chain": True, "ops": []}
+    n = rng.randrange(1, 9)
+    prev = None
+    fresh = True
+    for _ in range(n):
+        if prev is not None and rng.random() < 0.5:
+            js = mutate_screen(rng, prev, W, H)
+        else:
+            js = rand_screen(rng, W, H)
+        done = 1 if rng.random() < 0.12 else 0
+        if kind == "diff":
+            op = {"op": "diff", "scr": js, "done": done}
+            if fresh:
+                op["noprev"] = 1
+                op["pos"] = [0, 0]
+            case["ops"].append(op)
+        else:
+            op = {"op": "render", "scr": js, "done": done, "mouse": int(rng.random() < 0.1),
+                  "key": int(rng.random() < 0.1), "shape": rng.choice([0, 0, 0, 1, 2])}
+            case["ops"].append(op)
+            r = rng.random()
+            if not done and r < 0.06:
+                case["ops"].append({"op": "erase", "la": rng.randrange(2)})
+                prev = None
+            elif not done and r < 0.09:
+                case["ops"].append({"op": "clear"})
+                prev = None
+        fresh = bool(done)
+        prev = None if done else js
+        if done and fs:
+            break       # after leaving the alternate screen a new session starts
+    return case
+
+
+def rand_free(rng):
+    """direct calls of the differ with arbitrary current_pos / last_style / previous_width / previous screen:
+    correspondence only (the terminal need not show the previous screen)"""
+    W = rng.choice([0, 1, 2, 3, 5, 9])
+    H = rng.choice([0, 1, 2, 4])
+    case = {"kind": "diff", "W": W, "H": H, "fs": rng.randrange(2), "depth": rng.choice([1, 4, 8, 24]),
+            "styles": STYLES, "chain": False, "nogrid": 1, "ops": []}
+    for _ in range(rng.randrange(1, 5)):
+        op = {"op": "diff", "scr": rand_screen(rng, max(W, 1), max(H, 1)), "done": int(rng.random() < 0.2)}
+        if rng.random() < 0.7:
+            op["pos"] = [rng.randrange(0, W + 3), rng.randrange(0, H + 3)]
+        if rng.random() < 0.7:
+            op["last"] = rng.choice([None, 0, 1, 2, 3, 4, 5])
+        if rng.random() < 0.3:
+            op["pw"] = rng.choice([0, W, W + 1])
+        if rng.random() < 0.2:
+            op["noprev"] = 1
+        case["ops"].append(op)
+    return case
+
+
+def rand_resize(rng):
+    """Renderer-level sequences with size changes, style-key changes, bare resets: call correspondence only"""
+    W, H = rng.choice([2, 3, 5]), rng.choice([1, 2, 3])
+    case = {"kind": "rend", "W": W, "H": H, "fs": rng.randrange(2), "depth": rng.choice([1, 4, 8, 24]),
+            "styles": STYLES, "chain": False, "nogrid": 1, "ops": []}
+    for _ in range(rng.randrange(2, 8)):
+        r = rng.random()
+        if r < 0.15:
+            W, H = rng.choice([2, 3, 5]), rng.choice([1, 2, 3])
+            case["ops"].append({"op": "size", "W": W, "H": H})
+        elif r < 0.25:
+            case["ops"].append({"op": "reset", "sc": rng.randrange(2), "la": rng.randrange(2)})
+        elif r < 0.32:
+            case["ops"].append({"op": "erase", "la": rng.randrange(2)})
+        elif r < 0.36:
+            case["ops"].append({"op": "clear"})
+        else:
+            case["ops"].append({"op": "render", "scr": rand_screen(rng, W, H), "done": int(rng.random() < 0.15),
+                                "mouse": rng.randrange(2), "key": rng.randrange(3), "shape": rng.randrange(4)})
+    return case
+
+
+SMALL_KINDS = [None, ("a", 0), (" ", 2)]
+
+
+def small_screens(W, H):
+    out = []
+    for h in range(H + 1):
+        for tup in itertools.product(range(len(SMALL_KINDS)), repeat=W * h):
+            cells = []
+            for i, k in enumerate(tup):
+                if SMALL_KINDS[k] is not None:
+                    cells.append([i // W, i % W, SMALL_KINDS[k][0], SMALL_KINDS[k][1]])
+            out.append({"h": h, "cells": cells, "zwe": []})
+    return out
+
+
+def small_cases(sizes, n):
+    for (W, H) in sizes:
+        scr = small_screens(W, H)
+        idx = 0
+        for tup in itertools.product(range(len(scr)), repeat=n):
+            for fs in (0, 1):
+                ops = []
+                for j, si in enumerate(tup):
+                    base = scr[si]
+                    hh = max(1, base["h"])
+                    cur = [0, 0] if (idx + j) % 2 == 0 else [W - 1, hh - 1]
+                    ops.append({"op": "render", "scr": dict(base, cur=cur, show=(idx + j) % 3 != 0), "done": 0})
+                # every third chain ends with a done render of its last screen
+                if idx % 3 == 0:
+                    ops.append({"op": "render", "scr": ops[-1]["scr"], "done": 1})
+                idx += 1
+                yield {"kind": "rend", "W": W, "H": H, "fs": fs, "depth": 8,
+                       "styles": [[2, "", "ansired", "0000000"]], "chain": True, "ops": ops}
+
+
+def cases(tier, rng):
+    if tier == "quick":
+        yield from small_cases([(1, 1), (2, 1), (3, 1), (1, 2), (2, 2)], 2)
+        nrand, nfree, nres = 2500, 1200, 500
+    else:
+        yield from small_cases([(1, 1), (2, 1), (3, 1), (1, 2), (2, 2), (3, 2)], 2)
+        yield from small_cases([(1, 1), (2, 1), (3, 1), (1, 2)], 3)
+        nrand, nfree, nres = 60000, 15000, 6000
+    for _ in range(nrand):
+        yield rand_chain(rng, tier)
+    for _ in range(nfree):
+        yield rand_free(rng)
+    for _ in range(nres):
+        yield rand_resize(rng)
+
+
+def nontrivial(case):
+    scr = [op["scr"] for op in case["ops"] if "scr" in op and op["scr"]["cells"]]
+    return len({repr(s["cells"]) for s in scr}) >= 2
+
+
+def sample_view(case):
+    return case
+
+
+def distribution(cases_):
+    d = {"kind": {}, "W": {}, "H": {}, "ops": {}, "renders_per_case": {}, "wide_cells": 0, "done_renders": 0,
+         "full_screen": 0, "chain": 0}
+    for c in cases_:
+        d["kind"][c["kind"]] = d["kind"].get(c["kind"], 0) + 1
+        d["W"][str(c["W"])] = d["W"].get(str(c["W"]), 0) + 1
+        d["H"][str(c["H"])] = d["H"].get(str(c["H"]), 0) + 1
+        d["full_screen"] += int(bool(c["fs"]))
+        d["chain"] += int(bool(c.get("chain", True)))
+        n = 0
+        for op in c["ops"]:
+            d["ops"][op["op"]] = d["ops"].get(op["op"], 0) + 1
+            if "scr" in op:
+                n += 1
+                d["done_renders"] += int(bool(op["done"]))
+                d["wide_cells"] += sum(1 for cell in op["scr"]["cells"] if cell[2] == "")
+        d["renders_per_case"][str(n)] = d["renders_per_case"].get(str(n), 0) + 1
+    return d
 
 
 if __name__ == "__main__":
